@@ -37,6 +37,20 @@ class DomainMappingEval(EvalContract):
         return z3.Implies(m.contains(Z.nid(n)),
                           z3.And(m.contains(Z.nid(c)), MapRel(n, m.get(Z.nid(c)), m.get(Z.nid(n)))))
 
+    def extra_yield_obligations(self, eng, st, v, ordinal, node):
+        """C15 (`using a sub-query as an operand restricts that operand to the sub-query's solutions`): the row clauses of I
+        speak about the well-defined environments extending a row, and a row that binds a NON-solution of a sub-query has
+        none - so this has to be said separately: when the child is a sub-query (a truth node) and delivered this binding as
+        false (it was asked for false results), there is no value to take, and the mapping's own row is false whatever the
+        attribute of the non-solution happens to be."""
+        n = st.ghost['self']
+        c = Z.f_child(n)
+        if v.ref == st.ghost.get('sigma_ref'):
+            return          # already bound: the incoming binding is passed on
+        eng.oblige(st, f"C15-only/row@yield#{ordinal}/no-value-from-a-sub-query-that-does-not-hold",
+                   z3.Implies(z3.And(Z.truth_node(c), z3.Select(st.fields['is_false'], c)), z3.Select(st.fields['is_false'], n)),
+                   line=node.lineno)
+
 
 CONTRACTS = [DomainMappingEval]
 
